@@ -2486,6 +2486,12 @@ class Tr(object):
             raise Havoc('statement %s' % type(st).__name__)
 
     def run(self):
+        # a decorator replaces the function by whatever it returns: only the ones whose effect is known are let
+        # through (`functools.lru_cache`, `cache`, a hand-written memoiser ... keep state between calls)
+        for d in getattr(self.fn.node, 'decorator_list', []):
+            name = d.id if isinstance(d, ast.Name) else (d.attr if isinstance(d, ast.Attribute) else None)
+            if name not in ('staticmethod', 'classmethod', 'property'):
+                self.havoc('decorator ' + ast.unparse(d)[:60])
         self.stmts(self.fn.node.body)
         return self.out
 
